@@ -112,11 +112,13 @@ def _lens_cases(ctx, nl, rays_per):
                     s['rx'] = rng.uniform(-0.05, 0.05)
                     s['ry'] = rng.uniform(-0.05, 0.05)
                     hist['decentred_apertures'] = hist.get('decentred_apertures', 0) + 1
+        route = {1: 'handbuilt', 3: 'roundtrip', 4: 'reuse'}.get(li % 6, 'direct')
         try:
-            o = lensgen.build(spec)
+            o = lensgen.build_via(spec, route, rng)
         except Exception as e:   # noqa
             hist['errors'][type(e).__name__] = hist['errors'].get(type(e).__name__, 0) + 1
             continue
+        hist.setdefault('routes', {})[route] = hist.setdefault('routes', {}).get(route, 0) + 1
         wv = spec['wavelengths'][0][0]
         surfs = lensgen.model_surfaces(o, wv)
         # aperture radii and coating factors are taken from the PRESCRIPTION (what was asked for), not read back
